@@ -71,9 +71,9 @@ func c18ExhCount(tier string) int {
 
 func c18Seeded(tier string) int {
 	if tier == "thorough" {
-		return 10000
+		return 20000
 	}
-	return 1000
+	return 4000
 }
 
 func (p *c18) NumCases(tier string) int {
